@@ -1105,6 +1105,45 @@ fn lean_buf(b: &Option<BufParam>) -> String {
     }
 }
 
+/// the shape of the polling driver's `Splice::pre_submit` (two known shapes, anything else is an error)
+fn splice_wait_shape(parsed: &[(&'static str, &'static str, syn::File)], helpers: &Helpers) -> Res<&'static str> {
+    for (rel, drv, f) in parsed {
+        if *drv != "poll" {
+            continue;
+        }
+        for it in &f.items {
+            let syn::Item::Impl(im) = it else { continue };
+            let Some((_, tr, _)) = &im.trait_ else { continue };
+            if !tr.segments.last().map(|s| s.ident == "OpCode").unwrap_or(false) || self_name(&im.self_ty)?.0 != "Splice" {
+                continue;
+            }
+            for ii in &im.items {
+                let syn::ImplItem::Fn(m) = ii else { continue };
+                if m.sig.ident != "pre_submit" {
+                    continue;
+                }
+                let body: String = m.block.stmts.iter().map(nospace).collect();
+                let both = "usecrate::sys::WaitArg;Ok(Decision::wait_for_many([WaitArg::readable(self.fd_in.as_fd().as_raw_fd()),WaitArg::writable(self.fd_out.as_fd().as_raw_fd()),]))";
+                let pollable = "letargs=self.wait_args();Ok(ifargs.is_empty(){Decision::Blocking}else{Decision::wait_for_many(args)})";
+                if body == both {
+                    return Ok("bothEnds");
+                }
+                if body == pollable {
+                    let h = helpers.methods.get(&("Splice".to_string(), "wait_args".to_string())).ok_or(format!("{rel}: Splice::wait_args not found"))?;
+                    let hb: String = h[0].block.stmts.iter().map(nospace).collect();
+                    let expected = "usecrate::sys::WaitArg;letpollable=|fd:BorrowedFd|{!fs::fstat(fd).is_ok_and(|st|{letty=fs::FileType::from_raw_mode(st.st_mode);ty.is_file()||ty.is_dir()||ty.is_block_device()})};let(fd_in,fd_out)=(self.fd_in.as_fd(),self.fd_out.as_fd());letmutargs=Vec::with_capacity(2);ifpollable(fd_in){args.push(WaitArg::readable(fd_in.as_raw_fd()));}ifpollable(fd_out){args.push(WaitArg::writable(fd_out.as_raw_fd()));}args";
+                    if h.len() != 1 || hb != expected {
+                        return Err(format!("{rel}: Splice::wait_args: unrecognised body `{hb}`"));
+                    }
+                    return Ok("pollableEnds");
+                }
+                return Err(format!("{rel}: Splice::pre_submit: unrecognised body `{body}`"));
+            }
+        }
+    }
+    Err("polling Splice::pre_submit not found".into())
+}
+
 fn lean_lens(v: &[(LenKind, String)]) -> String {
     let s: BTreeSet<LenKind> = v.iter().map(|x| x.0).collect();
     format!("[{}]", s.into_iter().map(|k| k.lean()).collect::<Vec<_>>().join(", "))
@@ -1152,6 +1191,7 @@ pub fn generate(repo: &Path) -> Res<String> {
             return Err(format!("{rel}: no OpCode impl found"));
         }
     }
+    let splice_wait = splice_wait_shape(&parsed, &helpers)?;
     let known: BTreeSet<String> = rows.iter().filter(|r| r.main.is_some()).map(|r| r.op.clone()).collect();
     let mut mappings = vec![];
     for rel in MAPPING_FILES {
@@ -1213,6 +1253,8 @@ pub fn generate(repo: &Path) -> Res<String> {
         .unwrap();
     }
     s.push_str("]\n\n");
+    s.push_str("/-- which descriptors the polling driver's `Splice::pre_submit` waits for: `bothEnds` =\n    `wait_for_many([readable(fd_in), writable(fd_out)])` unconditionally (epoll refuses regular files: `EPERM`),\n    `pollableEnds` = only the ends that are not regular files / directories / block devices\n    (none left: `Decision::Blocking`) -/\ninductive SpliceWait where\n  | bothEnds | pollableEnds\n  deriving DecidableEq, Repr\n\n");
+    writeln!(s, "def spliceWaitPoll : SpliceWait := .{splice_wait}\n").unwrap();
     s.push_str("/-- what the high-level call does with the returned length -/\ninductive Mapping where\n  | none | advanced | vecAdvanced\n  deriving DecidableEq, Repr\n\n");
     s.push_str("/-- (source file, function, op it builds, mapping applied to the result) -/\ndef mappings : List (String × String × Op × Mapping) := [\n");
     for (i, (file, f, op, m)) in mappings.iter().enumerate() {
